@@ -16,12 +16,18 @@
 //!                                | std: sin(az) cos(az) sin(alt) cos(alt) sqrt(dot) atan2(z,x) sqrt(xx+zz) atan2(y,that)
 //!   cart3 <x> <y> <z>         -> r az alt  x' y' z'
 //!                                | std: sqrt(dot) atan2(z,x) sqrt(xx+zz) atan2(y,that) sin(az) cos(az) sin(alt) cos(alt)
+//!   opsu <a> <b> <s>          -> operators a+b a-b -a a*s a/s | trait methods Affine::add Affine::sub
+//!                                Linear::neg Linear::mul Linear::zero lerp(a,b,s) | a.to_degs b.to_degs
+//!                                (a+b).to_degs (a-b).to_degs a.to_turns (a*s).to_turns (a/s).to_turns | max min
+//!   front <r> <az> <alt> <x> <y> <z> -> Vec2::from(polar) to_cart | PolarVec::from(vec2) to_polar
+//!                                | Vec3::from(spherical) to_cart | SphericalVec::from(vec3) to_spherical
 //! The `std:` values are what the standard library returns for the stated arguments (computed here,
 //! not through retrofire); the model's coordinate-change skeleton is evaluated on them.
 use std::f32::consts::{PI, TAU};
 
 use re::math::angle::{acos, asin, atan2, degs, polar, rads, spherical, turns, Angle};
-use re::math::{vec2, vec3, Vec2, Vec3};
+use re::math::angle::{PolarVec, SphericalVec};
+use re::math::{vec2, vec3, Affine, Lerp, Linear, Vec2, Vec3};
 
 use vharness::util::*;
 
@@ -67,6 +73,42 @@ pub fn run(t: &[&str]) -> String {
                 (a / s).to_rads(),
                 (a % b).to_rads(),
             ])
+        }
+        "opsu" => {
+            let (a, b, s) = (rads(f(1)), rads(f(2)), f(3));
+            let ops = [(a + b).to_rads(), (a - b).to_rads(), (-a).to_rads(), (a * s).to_rads(), (a / s).to_rads()];
+            let tr = [
+                Affine::add(&a, &b).to_rads(),
+                Affine::sub(&a, &b).to_rads(),
+                Linear::neg(&a).to_rads(),
+                Linear::mul(&a, s).to_rads(),
+                <Angle as Linear>::zero().to_rads(),
+                a.lerp(&b, s).to_rads(),
+            ];
+            let un = [
+                a.to_degs(),
+                b.to_degs(),
+                (a + b).to_degs(),
+                (a - b).to_degs(),
+                a.to_turns(),
+                (a * s).to_turns(),
+                (a / s).to_turns(),
+            ];
+            format!("{} | {} | {} | {}", hs(&ops), hs(&tr), hs(&un), hs(&[a.max(b).to_rads(), a.min(b).to_rads()]))
+        }
+        "front" => {
+            let p = polar(f(1), rads(f(2)));
+            let sp = spherical(f(1), rads(f(2)), rads(f(3)));
+            let v2: Vec2 = vec2(f(4), f(5));
+            let v3: Vec3 = vec3(f(4), f(5), f(6));
+            let (a, b) = (Vec2::from(p), p.to_cart());
+            let (c, d) = (PolarVec::from(v2), v2.to_polar());
+            let (e, g) = (Vec3::from(sp), sp.to_cart());
+            let (h, i) = (SphericalVec::from(v3), v3.to_spherical());
+            format!(
+                "{} {} | {} {} | {} {} | {} {}",
+                hs(&a.0), hs(&b.0), hs(&c.0), hs(&d.0), hs(&e.0), hs(&g.0), hs(&h.0), hs(&i.0)
+            )
         }
         "sincos" => {
             let a = rads(f(1));
@@ -325,6 +367,26 @@ pub fn gen(rng: &mut Rng, tier: Tier, out: &mut Vec<String>) {
         let s = if s == 0.0 { 0.5 } else { s };
         let b2 = if b == 0.0 { 1.0 } else { b };
         out.push(format!("ops {} {} {}", h32(a), h32(b2), h32(s)));
+    }
+    // operators, the Affine/Linear trait methods, lerp, max/min, read back in every unit
+    for _ in 0..n(1500, 50_000) {
+        let (a, b) = (angle(rng), angle(rng));
+        let s = match rng.below(4) {
+            0 => rng.range(-4, 5) as f32,
+            1 => rng.unit(),
+            _ => rng.f32_in(-10.0, 10.0),
+        };
+        let s = if s == 0.0 { 0.25 } else { s };
+        out.push(format!("opsu {} {} {}", h32(a), h32(b), h32(s)));
+    }
+    // the From/Into front doors of the coordinate changes
+    for _ in 0..n(1000, 30_000) {
+        let r = magnitude(rng) * rng.f32_in(-0.2, 1.0);
+        let m = magnitude(rng);
+        out.push(format!(
+            "front {} {} {} {} {} {}",
+            h32(r), h32(angle(rng)), h32(rng.f32_in(-PI / 2.0, PI / 2.0)), h32(comp(rng, m)), h32(comp(rng, m)), h32(comp(rng, m))
+        ));
     }
     // sin / cos / tan
     for _ in 0..n(2000, 60_000) {
